@@ -8,6 +8,7 @@ import (
 	"strings"
 	"sync"
 	"testing/synctest"
+	"time"
 
 	"github.com/netflix/rend/handlers"
 	"github.com/netflix/rend/handlers/memcached/chunked"
@@ -30,6 +31,7 @@ func init() {
 
 // deployment is one running server.ListenAndServe over fake backends with an in-memory listener.
 type deployment struct {
+	idle  time.Duration // client stays silent this long before disconnecting
 	cfg   Cfg
 	port  int
 	l     *memListener
@@ -226,6 +228,18 @@ func runC15(c *rt.Ctx) {
 								clause += "/client-gone-before-reply"
 							}
 						}
+						if clause == "" && (cut == 0 || cut == len(stream)/2) {
+							// the client idles for an hour at this offset, then goes away (timers on the
+							// accept / read path must not leave anything behind either)
+							d.idle = time.Hour
+							clause, detail = d.runDisconnect(proto, stream, cut, false)
+							d.idle = 0
+							c.Eval(1)
+							c.Trace(1)
+							if clause != "" {
+								clause += "/after-idling"
+							}
+						}
 						if clause == "" {
 							// the same disconnect while a second client, accepted after this one,
 							// is connected: only this client's resources may be released
@@ -312,6 +326,11 @@ func (d *deployment) runDisconnectMode(proto string, stream []byte, cut int, ove
 		} else {
 			cli.Feed(stream[:cut])
 		}
+		synctest.Wait()
+	}
+	if d.idle > 0 {
+		// the client stays connected and silent for a long (virtual) time before it goes away
+		time.Sleep(d.idle)
 		synctest.Wait()
 	}
 	cli.End()
